@@ -14,6 +14,8 @@ HX int h_gen(int k, int n, int lo, int hi, double* y) {
     }
     H_END
 }
+// native replay only: n draws after rng(seed), returns how many leave [lo, hi] (the solver's raw engine outputs cannot be forced onto the real mt19937, so the replay searches)
+HX int h_randi_many(int lo, int hi, int n, int seed) { H_TRY rng(seed); int bad = 0; for (int i = 0; i < n; ++i) { const int v = randi({lo, hi}); if (v < lo || v > hi) ++bad; } return bad; H_END }
 HX int h_randi1(int lo, int hi) { H_TRY return randi({lo, hi}); H_END }
 HX int h_seed_gen(int seed, int k, int n, int lo, int hi, double* y) { rng(seed); return h_gen(k, n, lo, hi, y); }
 HX int h_awgn_r(int seed, const double* x, int n, double snr, double* y) { H_TRY rng(seed); arr_real r = awgn(mk_real(x, n), snr); put_real(r, y); return r.size(); H_END }
